@@ -119,7 +119,14 @@ def matrix(ctx: Ctx):
     ctx.check(ok_ranges, "D2", "DU.matrix", "the cost table is filled over the full double range (every vehicle x every request)", fn, lo,
               why_bad=f"loops over {flow.dump(lo.iter)} / {flow.dump(li.iter)}", construct="find_assignment:ranges")
     stores = []
-    for p in flow.paths_of_block(li.body):
+    # locals of the outer loop body that the inner loop reads (`assignee = assignees[i]`) are expanded
+    pre_env = {}
+    for st_ in lo.body:
+        if st_ is li:
+            break
+        if isinstance(st_, ast.Assign) and len(st_.targets) == 1 and isinstance(st_.targets[0], ast.Name):
+            pre_env[st_.targets[0].id] = flow.subst(st_.value, pre_env)
+    for p in flow.paths_of_block(li.body, pre_env or None):
         for s in p.stores:
             if flow.dump(s.raw).startswith("table["):
                 stores.append(s)
@@ -151,7 +158,7 @@ def matrix(ctx: Ctx):
               why_bad=f"unpacked as {flow.dump(unpack[0].targets[0]) if unpack else '?'}: vehicles and requests are read with each other's indices", construct="find_assignment:unpack")
     ps = [p for p in flow.paths(inner.node) if p.kind == "return"]
     want = f"{sol}.add(({A}[rows[{k}]].id, {T}[cols[{k}]].id), table[rows[{k}]][cols[{k}]])"
-    ok = len(ps) == 1 and flow.dump(ps[0].value) == want
+    ok = flow.values_match(ps, want)
     ctx.check(ok, "D2", "DU.matrix", "pair k = (assignees[rows[k]].id, targets[cols[k]].id): both indices come from the solver", inner,
               why_bad=f"returns {flow.dump(ps[0].value)[:260] if ps else '?'}", construct="_add_to_solution:pair")
     ok = any(d == f"ft.reduce(_add_to_solution, range(len(rows)), AssignmentSolution())" for d in src_calls)
